@@ -36,7 +36,24 @@ func Abs(path string) (string, error) {
 	return real.Join(wd, path), nil
 }
 
-func EvalSymlinks(path string) (string, error) { return real.Clean(path), nil }
+// EvalSymlinks resolves the links of the simulated file system (for a relative path, relative to the simulated working
+// directory, and the result is made relative to it again when it lies below it, as the real function keeps relative paths relative).
+func EvalSymlinks(path string) (string, error) {
+	abs := sim.TheFS.Abs(path)
+	res, er := sim.TheFS.Resolve(abs, 0)
+	if er != 0 {
+		return "", &fs.PathError{Op: "lstat", Path: path, Err: er}
+	}
+	if real.IsAbs(path) {
+		return res, nil
+	}
+	if wd, er2 := sim.TheFS.Resolve(sim.TheFS.Cwd, 0); er2 == 0 {
+		if rel, err := real.Rel(wd, res); err == nil {
+			return rel, nil
+		}
+	}
+	return res, nil
+}
 
 func Glob(pattern string) ([]string, error) {
 	dir, file := real.Split(pattern)
